@@ -525,7 +525,6 @@ func c15StopAll(c *Ctx, r *Result, dbgIface *types.Interface) {
 	r.Floor("R15f", n, 1)
 }
 
-
 func c15NoPredicateReset(c *Ctx, r *Result, lfs *LockFlows) {
 	fRunning := c.Field("interpreter", "interrogationState", "running")
 	fStates := c.Field("interpreter", "ecalDebugger", "interrogationStates")
@@ -594,32 +593,62 @@ func c15NoPredicateReset(c *Ctx, r *Result, lfs *LockFlows) {
 		key := c.FuncKey(fn)
 		ord := newOrdinals()
 		bad := false
-		allInstrs(fn, func(in ssa.Instruction) {
+		isPub := map[ssa.Instruction]bool{}
+		for _, p := range pubs {
+			isPub[p] = true
+		}
+		isReset := func(in ssa.Instruction) bool {
 			reset := isFalseStore(in)
 			if call, ok := in.(*ssa.Call); ok {
 				if f := call.Call.StaticCallee(); f != nil && resets[f] && f != fn {
 					reset = true
 				}
 			}
-			if !reset || dbgLock(lf, in) {
+			return reset && !dbgLock(lf, in)
+		}
+		// path-sensitive (flag variables select the wait site): a reset reached on a path that
+		// passed a publication
+		flagged := map[ssa.Instruction]ssa.Instruction{}
+		o := &PathOracle{}
+		o.Visit = func(st *PState, in ssa.Instruction) {
+			if isPub[in] {
+				st.Flags["pub:"+c.Pos(c.InstrPos(in))] = true
 				return
 			}
-			for _, p := range pubs {
-				if p != in && canReach(p, in) {
-					n++
-					bad = true
-					site := ord.key(key, "predicate-reset", "")
-					pos := c.Pos(c.InstrPos(in))
-					r.Instance("R15g", site, pos, "finding", "running reset to false after publication", true)
-					r.Report(Finding{Rule: "R15g", Site: site, Pos: pos,
-						Msg: fmt.Sprintf("%s: the thread's state is published as suspended at %s, the debugger lock is released, and running is then set to false again before waiting: a continue or stop command that arrives in between is overwritten and the thread waits forever although the command was given", key, c.Pos(c.InstrPos(p)))})
-					return
+			if !isReset(in) {
+				return
+			}
+			for k, on := range st.Flags {
+				if on && strings.HasPrefix(k, "pub:") {
+					for _, p := range pubs {
+						if "pub:"+c.Pos(c.InstrPos(p)) == k && p != in {
+							flagged[in] = p
+						}
+					}
 				}
 			}
-		})
+		}
+		if !ExplorePaths(fn, o) {
+			r.Undecide("R15g: path exploration of %s exceeded its state bound", key)
+			continue
+		}
+		var ins []ssa.Instruction
+		for in := range flagged {
+			ins = append(ins, in)
+		}
+		sort.Slice(ins, func(i, j int) bool { return ins[i].Pos() < ins[j].Pos() })
+		for _, in := range ins {
+			n++
+			bad = true
+			site := ord.key(key, "predicate-reset", "")
+			pos := c.Pos(c.InstrPos(in))
+			r.Instance("R15g", site, pos, "finding", "running reset to false after publication", true)
+			r.Report(Finding{Rule: "R15g", Site: site, Pos: pos,
+				Msg: fmt.Sprintf("%s: the thread's state is published as suspended at %s, the debugger lock is released, and running is then set to false again before waiting: a continue or stop command that arrives in between is overwritten and the thread waits forever although the command was given", key, c.Pos(c.InstrPos(flagged[in])))})
+		}
 		if !bad {
 			n++
-			r.Instance("R15g", key+"#publication", c.Pos(fn.Pos()), "ok", fmt.Sprintf("%d publication(s) of a suspended state; running is not written again before the wait", len(pubs)), true)
+			r.Instance("R15g", key+"#publication", c.Pos(fn.Pos()), "ok", fmt.Sprintf("%d publication(s) of a suspended state; on no path is running written again before the wait", len(pubs)), true)
 		}
 	}
 	r.Floor("R15g", n, 2)
